@@ -232,10 +232,10 @@ def _worker(args):
         return {'contract': cname, 'error': traceback.format_exc(), 'obs': [], 'stats': {}}
 
 
-def run_contract(reg, con, tier='quick', prefix='', modname=''):
+def run_contract(reg, con, tier='quick', prefix='', modname='', timeout_ms=None, retry=True):
     """Returns plain data: {'contract', 'obs': [dict], 'stats'}"""
     t0 = time.time()
-    timeout = THOROUGH_MS if tier == 'thorough' else QUICK_MS
+    timeout = timeout_ms or (THOROUGH_MS if tier == 'thorough' else QUICK_MS)
     out = {'contract': con.name, 'obs': [], 'stats': {}, 'error': None, 'target': con.target,
            'hash': source.src_hash(con.target), 'imprecise': [], 'used_contracts': []}
     try:
@@ -256,7 +256,7 @@ def run_contract(reg, con, tier='quick', prefix='', modname=''):
     for vc in vcs:
         if vc.status == 'pending':
             _solve(vc, timeout)
-            if vc.status == 'unknown' and vc.model is None:
+            if retry and vc.status == 'unknown' and vc.model is None:
                 # one retry with a larger budget and another seed: verdicts must not flip under machine load
                 _solve(vc, timeout * 4, seed=7)
         groups.setdefault(vc.name, []).append(vc)
